@@ -51,6 +51,8 @@ type Faults struct {
 	// grows beyond that gets a short write followed by EFBIG: a full disk or an exhausted quota, struck inside
 	// whatever write is in flight (cache file, spokfile under --fmt / --init, .gitignore). 0 = no limit.
 	FsizeLimit int `json:"fsize_limit,omitempty"`
+	// NofileLimit (level L3 only): RLIMIT_NOFILE (soft and hard) of the child process
+	NofileLimit int `json:"nofile_limit,omitempty"`
 	// OpenErr / ReadErr: path (absolute) -> errno name.
 	OpenErr map[string]string `json:"open_err,omitempty"`
 	ReadErr map[string]string `json:"read_err,omitempty"`
@@ -66,12 +68,15 @@ type Faults struct {
 func NoFaults() Faults { return Faults{CrashAt: -1, TearWrite: -1} }
 
 var errnoByName = map[string]error{
-	"ENOENT": syscall.ENOENT,
-	"EACCES": syscall.EACCES,
-	"EIO":    syscall.EIO,
-	"EMFILE": syscall.EMFILE,
-	"ENOSPC": syscall.ENOSPC,
-	"EBUSY":  syscall.EBUSY,
+	"ENOENT":  syscall.ENOENT,
+	"EACCES":  syscall.EACCES,
+	"EIO":     syscall.EIO,
+	"EMFILE":  syscall.EMFILE,
+	"ENOSPC":  syscall.ENOSPC,
+	"EBUSY":   syscall.EBUSY,
+	"EAGAIN":  syscall.EAGAIN,
+	"ETXTBSY": syscall.ETXTBSY,
+	"ENOMEM":  syscall.ENOMEM,
 }
 
 // counterSites are step counters, not crash points.
